@@ -456,7 +456,18 @@ func (c *conn) WriteTo(w io.Writer) (n int64, err error) {
 }
 
 func (c *conn) Flush() error {
-	return c.loop.write(c)
+	if err := c.loop.write(c); err != nil {
+		return err
+	}
+	// In level-triggered mode the rest of the data is sent when the socket becomes writable,
+	// which requires the write interest that ReadFrom did not register.
+	if c.opened && !c.loop.engine.opts.EdgeTriggeredIO && !c.outboundBuffer.IsEmpty() {
+		if err := c.loop.poller.ModReadWrite(&c.pollAttachment, false); err != nil {
+			_ = c.loop.close(c, err)
+			return err
+		}
+	}
+	return nil
 }
 
 func (c *conn) InboundBuffered() int {
